@@ -197,6 +197,8 @@ def scenarios():
     for kind, (decl, use) in ZERO.items():
         out[f"{kind}/pin-zero/use-in-loop"] = f"mon = SerialMonitor(9600)\n{decl}\nwhile True:\n    {use}\n    sleep(5)\n"
         out[f"{kind}/pin-zero/use-in-setup-and-helper"] = f"mon = SerialMonitor(9600)\n{decl}\ndef act():\n    {use}\n{use}\nwhile True:\n    act()\n    sleep(5)\n"
+    out["DCMotor+Servo+Led/top-of-loop-with-constant-only-prologue"] = "limit = 3\ndef noop():\n    return limit\nwhile True:\n    m = DCMotor(2, 3, 5)\n    l = Led(13)\n    m.set_speed(0.25)\n    l.on()\n    sleep(5)\n"
+    out["Led/top-of-loop-with-import-only-prologue"] = "while True:\n    l = Led(12)\n    l.toggle()\n    sleep(5)\n"
     out["Led+Button/same-script"] = "mon = SerialMonitor(9600)\nl = Led(13)\nb = Button(4)\nwhile True:\n    if b.is_pressed():\n        l.on()\n    else:\n        l.off()\n    sleep(5)\n"
     out["Led+Potentiometer+Servo"] = ("mon = SerialMonitor(9600)\nl = Led(13)\np = Potentiometer('A1')\ns = Servo(6)\nwhile True:\n    v = p.read()\n    s.write(v / 6)\n"
                                       "    l.set_brightness(v / 4)\n    mon.write(v)\n    sleep(5)\n")
@@ -454,6 +456,8 @@ T5_SCRIPTS = {
     "prologue-derived-after-reassignment": "mon = SerialMonitor(9600)\nbase = 3\nbase = 10\nlimit = base + 1\nmon.write(limit)\nwhile True:\n    limit = limit + 11\n    mon.write(limit)\n    sleep(5)\n",
     "prologue-order-with-branch-and-loop": "mon = SerialMonitor(9600)\nx = 1\nfor i in range(3):\n    x = x * 2\ny = x + 1\nc = 1\nif c > 0:\n    y = y + 100\nz = y - x\nmon.write(y)\nmon.write(z)\nwhile True:\n    mon.write(z + y)\n    sleep(5)\n",
     "continue-in-elif-arm": "mon = SerialMonitor(9600)\nn = 0\nwhile True:\n    n = n + 1\n    if n == 1:\n        mon.write('one')\n    elif n % 2 == 0:\n        continue\n    else:\n        mon.write('odd')\n    mon.write(n)\n    sleep(5)\n",
+    "reinitialised-at-top-of-every-pass": "mon = SerialMonitor(9600)\nwhile True:\n    lo, hi = 2, 5\n    x = 0\n    tag = 'a'\n    lo = lo + hi\n    x = x + lo\n    tag = tag + 'b'\n    mon.write(lo)\n    mon.write(x)\n    mon.write(tag)\n    hi = hi * 10\n    sleep(5)\n",
+    "tuple-reinitialised-after-a-call": "mon = SerialMonitor(9600)\nk = 0\nwhile True:\n    mon.write(k)\n    a, b = 1, 2\n    a = a + b + k\n    b = b * a\n    mon.write(a)\n    mon.write(b)\n    k = k + 1\n    sleep(5)\n",
     "motor-speed-variable": "mon = SerialMonitor(9600)\nm = DCMotor(2, 3, 5)\nspeed = 0.2\nwhile True:\n    m.set_speed(speed)\n    mon.write(speed)\n    speed = speed + 0.1\n    sleep(5)\n",
     "brightness-variable": "mon = SerialMonitor(9600)\nl = Led(9)\nlevel = 10\nwhile True:\n    l.set_brightness(level)\n    mon.write(level)\n    level = level + 20\n    sleep(5)\n",
     "tone-variable": "mon = SerialMonitor(9600)\nbz = Buzzer(8)\nfreq = 440\nwhile True:\n    bz.play_tone(freq)\n    mon.write(freq)\n    freq = freq + 110\n    sleep(5)\n",
